@@ -134,8 +134,10 @@ def distInt (q : Rat) : Rat :=
 def rmax (a b : Rat) : Rat := if a ≥ b then a else b
 
 /-- magnitudes / margins of one binary node, from the operand values seen in the result's system -/
-def binDiag (op : BinOp) (x y : Operand) (mx my : List Rat) (d : Diag) : Diag :=
-  let selfIsLeft := match x with | .num _ => (match y with | .num _ => true | _ => false) | _ => true
+def dispatchSelfIsLeft (x y : Operand) : Bool :=
+  match x with | .num _ => (match y with | .num _ => true | _ => false) | _ => true
+
+def binDiagSelf (selfIsLeft : Bool) (op : BinOp) (x y : Operand) (mx my : List Rat) (d : Diag) : Diag :=
   let (A, MA, FA) := if selfIsLeft then (x.values, mx, []) else seenFrom y x mx
   let (B, MB, FB) := if selfIsLeft then seenFrom x y my else (y.values, my, [])
   let d := (((d.see A).see B).see FA).see FB
@@ -161,13 +163,16 @@ def binDiag (op : BinOp) (x y : Operand) (mx my : List Rat) (d : Diag) : Diag :=
         else
           let c1 := rabs b / mb
           let mq := ma * mb / (b * b)
-          -- the quotient is within ~1e-15·mq of the double one; its margin is held to 1e-9·mq (reported ×1000,
-          -- the harness threshold being 1e-6)
-          let c2 := if mq = 0 then 1 else 1000 * distInt (a / b) / mq
+          -- the double quotient is within ~1e-15·mq of the exact one; its margin is held to 1e-12·mq
+          -- (reported ×1e6, the harness threshold being 1e-6)
+          let c2 := if mq = 0 then 1 else 1000000 * distInt (a / b) / mq
           if c1 ≤ c2 then c1 else c2
       | _ => 1
     if c < m then c else m) d.margin
   { d with mags := mags, margin := margin }
+
+def binDiag (op : BinOp) (x y : Operand) (mx my : List Rat) (d : Diag) : Diag :=
+  binDiagSelf (dispatchSelfIsLeft x y) op x y mx my d
 
 def powDiag (x y : Operand) (mx : List Rat) (r : Operand) (d : Diag) : Diag :=
   match x, y, r with
@@ -195,7 +200,7 @@ def evalD : Expr → Res Operand × Diag
       let d := binDiag op x y da.mags db.mags (da.merge db)
       match binop op x y with
       | .ok r => (.ok r, d.see r.values)
-      | .error e => (.error e, d)
+      | .error e => (.error e, { d with margin := (da.merge db).margin })   -- a node that raises has no discontinuity of its own
     | (.error e, da), (_, db) => (.error e, da.merge db)
     | (_, da), (.error e, db) => (.error e, da.merge db)
   | .pow a b =>
@@ -230,9 +235,31 @@ def diagFields (d : Diag) : List (String × Json) :=
   [("mag", ratListJson d.mags), ("margin", ratJson d.margin), ("lo", ratJson d.lo), ("hi", ratJson d.hi),
    ("zerodiv", Json.bool d.zerodiv)]
 
+/-- `{"op":"expr","e":{"k":"rbin","op":"sub","a":<tree>,"b":<tree>}}` : the reflected method of `b` called directly,
+`b.__rsub__(a)` — `UVal.rdunder` / `UArr.rdunder` applied literally to whatever `a` evaluates to (Python's own dispatch
+reaches these methods only for a plain number `a`) -/
+def opRExpr (ej : Json) : Except String Json := do
+  let op ← getBinOp (← getStr (← field ej "op"))
+  let a ← getExpr (← field ej "a")
+  let b ← getExpr (← field ej "b")
+  match evalD a, evalD b with
+  | (.ok x, da), (.ok y, db) =>
+    let d := binDiagSelf false op x y da.mags db.mags (da.merge db)
+    let r : Res Operand := match y with
+      | .val q => q.rdunder op x
+      | .arr q => q.rdunder op x
+      | .num _ => .error .typeError
+    match r with
+    | .ok o => return Json.mkObj (("ok", operandJson o) :: diagFields (d.see o.values))
+    | .error e => return Json.mkObj (("error", Json.str (errName e)) :: diagFields d)
+  | (.error e, da), (_, db) => return Json.mkObj (("error", Json.str (errName e)) :: diagFields (da.merge db))
+  | (_, da), (.error e, db) => return Json.mkObj (("error", Json.str (errName e)) :: diagFields (da.merge db))
+
 /-- `{"op":"expr","e":<tree>}` or `{"op":"expr","cmp":"lt","e":<tree>,"b":<tree>}` -/
 def opExpr : Handler := fun j => do
-  let a ← getExpr (← field j "e")
+  let ej ← field j "e"
+  if (← getStr (← field ej "k")) == "rbin" then return ← opRExpr ej
+  let a ← getExpr ej
   match fieldOpt j "cmp" with
   | none =>
     let (r, d) := evalD a
